@@ -843,3 +843,710 @@ Proof.
   rewrite read_header_encode; [|apply main_items_ok; exact F|exact (pf_payload p F)].
   reflexivity.
 Qed.
+
+(* ================================================================ the signature packet codec *)
+
+Lemma need_app : forall a b n, n = length a -> need n (a ++ b) = Ok (a, b).
+Proof.
+  intros a b n Hn. unfold need. subst n.
+  assert (H : Nat.ltb (length (a ++ b)) (length a) = false) by (apply Nat.ltb_ge; rewrite app_length; lia).
+  rewrite H, firstn_app_exact, skipn_app_exact by reflexivity. reflexivity.
+Qed.
+
+Lemma N_to_be_2 : forall n, N_to_be 2 n = [(n / 256) mod 256; n mod 256].
+Proof. reflexivity. Qed.
+
+Lemma read_mpi_enc : forall m rest, lenN m < 8192 -> read_mpi (enc_mpi m ++ rest) = Ok rest.
+Proof.
+  intros m rest Hm. unfold read_mpi, enc_mpi. rewrite N_to_be_2.
+  cbn [app]. unfold need at 1. cbn [length Nat.ltb Nat.leb firstn skipn bind nth].
+  set (n := 8 * lenN m).
+  assert (Hhi : (n / 256) mod 256 = n / 256).
+  { apply N.mod_small. apply N.div_lt_upper_bound; subst n; lia. }
+  assert (Hn : (n / 256) mod 256 * 256 + n mod 256 = n).
+  { rewrite Hhi. pose proof (N.div_mod n 256). lia. }
+  rewrite Hn.
+  assert (Hb : (n + 7) / 8 = lenN m).
+  { symmetry. apply N.div_unique with (r := 7); subst n; lia. }
+  rewrite Hb, to_nat_lenN, need_app by reflexivity. reflexivity.
+Qed.
+
+Lemma read_mpis_enc : forall mpis rest,
+  forallb (fun m => lenN m <? 8192) mpis = true ->
+  read_mpis (length mpis) (flat_map enc_mpi mpis ++ rest) = Ok tt.
+Proof.
+  induction mpis as [|m r IH]; intros rest H; [reflexivity|].
+  cbn [forallb] in H. apply andb_prop in H as [Hm Hr].
+  cbn [length read_mpis flat_map]. rewrite <- app_assoc.
+  rewrite read_mpi_enc by lia. cbn [bind]. apply IH. exact Hr.
+Qed.
+
+Lemma firstn_N_all : forall l, firstn_N (lenN l) l = l.
+Proof. intros. unfold firstn_N. rewrite N.leb_refl. reflexivity. Qed.
+
+Lemma pkt_header_new : forall body, lenN body < 4294967296 ->
+  read_pkt_header (194 :: new_len (lenN body) ++ body) = Ok (2, body).
+Proof.
+  intros body Hb. unfold read_pkt_header.
+  change (194 <? 128) with false. change ((194 / 64) mod 2 =? 0) with false. change (194 mod 64) with 2.
+  cbv iota. unfold new_len. set (n := lenN body) in *.
+  destruct (n <? 192) eqn:E1.
+  - cbn [app]. rewrite E1. subst n. rewrite firstn_N_all. reflexivity.
+  - destruct (n <? 8384) eqn:E2.
+    + cbn [app].
+      assert (Hq : (n - 192) / 256 < 32) by (apply N.div_lt_upper_bound; lia).
+      assert (H1 : (192 + (n - 192) / 256 <? 192) = false) by lia.
+      assert (H2 : (192 + (n - 192) / 256 <? 224) = true) by lia.
+      rewrite H1, H2.
+      assert (Hv : (192 + (n - 192) / 256 - 192) * 256 + (n - 192) mod 256 + 192 = n).
+      { pose proof (N.div_mod (n - 192) 256). lia. }
+      rewrite Hv. subst n. rewrite firstn_N_all. reflexivity.
+    + cbn [app]. change (255 <? 192) with false. change (255 <? 224) with false. change (255 <? 255) with false.
+      cbv iota. rewrite need_app by (rewrite length_N_to_be; reflexivity). cbn [bind].
+      rewrite be_to_N_to_be4 by exact Hb. subst n. rewrite firstn_N_all. reflexivity.
+Qed.
+
+Lemma parse_subpackets_nil : forall f st h, parse_subpackets f st [] h = Ok st.
+Proof. intros [|f] st h; reflexivity. Qed.
+
+Lemma sub_created : forall f st c1 c2 c3 c4,
+  parse_subpackets (S f) st [5; 2; c1; c2; c3; c4] true
+  = Ok (mksstate true (ss_issuer st) (ss_embedded st)).
+Proof.
+  intros. transitivity (parse_subpackets f (mksstate true (ss_issuer st) (ss_embedded st)) [] true);
+    [reflexivity|apply parse_subpackets_nil].
+Qed.
+
+Lemma sub_issuer : forall f st i1 i2 i3 i4 i5 i6 i7 i8,
+  parse_subpackets (S f) st [9; 16; i1; i2; i3; i4; i5; i6; i7; i8] false
+  = Ok (mksstate (ss_created st) (Some (be_to_N [i1; i2; i3; i4; i5; i6; i7; i8])) (ss_embedded st)).
+Proof.
+  intros. transitivity (parse_subpackets f (mksstate (ss_created st) (Some (be_to_N [i1; i2; i3; i4; i5; i6; i7; i8])) (ss_embedded st)) [] false);
+    [reflexivity|apply parse_subpackets_nil].
+Qed.
+
+Lemma parse_sig4_canon : forall t a h c1 c2 c3 c4 i1 i2 i3 i4 i5 i6 i7 i8 h1 h2 mpis k,
+  sig4_algo_ok a = true -> hash_known h = true -> sig_mpis a = Some k -> length mpis = k ->
+  forallb (fun m => lenN m <? 8192) mpis = true ->
+  let body := 4 :: t :: a :: h :: 0 :: 6 :: 5 :: 2 :: c1 :: c2 :: c3 :: c4 :: 0 :: 10 :: 9 :: 16
+                :: i1 :: i2 :: i3 :: i4 :: i5 :: i6 :: i7 :: i8 :: h1 :: h2 :: flat_map enc_mpi mpis in
+  parse_sig4 (length body) body = Ok (PSig4 t a h (Some (be_to_N [i1; i2; i3; i4; i5; i6; i7; i8]))).
+Proof.
+  intros t a h c1 c2 c3 c4 i1 i2 i3 i4 i5 i6 i7 i8 h1 h2 mpis k Ha Hh Hk Hlen Hm body. subst body.
+  cbn [length]. rewrite parse_sig4_S.
+  change (4 =? 4) with true. rewrite Ha, Hh. cbn [negb].
+  change (N.to_nat (0 * 256 + 6)) with 6%nat.
+  unfold need at 1. cbn [length Nat.ltb Nat.leb firstn skipn bind].
+  rewrite sub_created. cbn [bind ss_created negb].
+  unfold need at 1. cbn [length Nat.ltb Nat.leb firstn skipn bind nth].
+  change (N.to_nat (0 * 256 + 10)) with 10%nat.
+  unfold need at 1. cbn [length Nat.ltb Nat.leb firstn skipn bind].
+  rewrite sub_issuer. cbn [bind ss_issuer].
+  unfold need at 1. cbn [length Nat.ltb Nat.leb firstn skipn bind].
+  rewrite Hk. subst k. rewrite <- (app_nil_r (flat_map enc_mpi mpis)).
+  rewrite read_mpis_enc by exact Hm. reflexivity.
+Qed.
+
+Lemma parse_sig3_canon : forall t a h c1 c2 c3 c4 i1 i2 i3 i4 i5 i6 i7 i8 h1 h2 mpis k,
+  sig3_algo_ok a = true -> hash_known h = true -> sig_mpis a = Some k -> length mpis = k ->
+  forallb (fun m => lenN m <? 8192) mpis = true ->
+  parse_sig3 (3 :: 5 :: t :: c1 :: c2 :: c3 :: c4 :: i1 :: i2 :: i3 :: i4 :: i5 :: i6 :: i7 :: i8 :: a :: h
+                :: h1 :: h2 :: flat_map enc_mpi mpis)
+  = Ok (PSig3 a h (be_to_N [i1; i2; i3; i4; i5; i6; i7; i8])).
+Proof.
+  intros t a h c1 c2 c3 c4 i1 i2 i3 i4 i5 i6 i7 i8 h1 h2 mpis k Ha Hh Hk Hlen Hm.
+  unfold parse_sig3.
+  change ((3 <? 2) || (3 <? 3)) with false. change (5 =? 5) with true. cbn [negb].
+  unfold need at 1. cbn [length Nat.ltb Nat.leb firstn skipn bind].
+  unfold need at 1. cbn [length Nat.ltb Nat.leb firstn skipn bind].
+  unfold need at 1. cbn [length Nat.ltb Nat.leb firstn skipn bind nth].
+  rewrite Ha, Hh. cbn [negb].
+  unfold need at 1. cbn [length Nat.ltb Nat.leb firstn skipn bind].
+  rewrite Hk. subst k. rewrite <- (app_nil_r (flat_map enc_mpi mpis)).
+  rewrite read_mpis_enc by exact Hm. reflexivity.
+Qed.
+
+Definition sig_view (s : sigpkt) : pkt :=
+  if sp_v3 s then PSig3 (sp_algo s) (sp_hash s) (sp_issuer s)
+  else PSig4 (sp_sigtype s) (sp_algo s) (sp_hash s) (Some (sp_issuer s)).
+
+Lemma length_flat_enc_mpi : forall mpis n,
+  forallb (fun m => lenN m <? 8192) mpis = true -> length mpis = n ->
+  lenN (flat_map enc_mpi mpis) <= 8194 * N.of_nat n.
+Proof.
+  induction mpis as [|m r IH]; intros n H Hn; [cbn; lia|].
+  cbn [forallb] in H. apply andb_prop in H as [Hm Hr].
+  cbn [flat_map]. rewrite lenN_app. cbn [length] in Hn. specialize (IH _ Hr eq_refl).
+  unfold enc_mpi at 1. rewrite lenN_app.
+  assert (H2 : lenN (N_to_be 2 (8 * lenN m)) = 2) by (unfold lenN; rewrite length_N_to_be; reflexivity).
+  rewrite H2. lia.
+Qed.
+
+(* packet.Read on the canonical encoding of a signature returns its algorithm, hash and issuer *)
+Lemma packet_read_encode : forall other s, sig_ok s = true ->
+  packet_read other (encode_sig s) = Ok (sig_view s).
+Proof.
+  intros other s H. unfold sig_ok in H.
+  apply andb_prop in H as [H Hm]. apply andb_prop in H as [H Hk]. apply andb_prop in H as [H Htag].
+  apply andb_prop in H as [H Hc]. apply andb_prop in H as [H Hi]. apply andb_prop in H as [Ha Hh].
+  destruct (sig_mpis (sp_algo s)) as [k|] eqn:Ek; [|discriminate].
+  apply Nat.eqb_eq in Hk. apply Nat.eqb_eq in Htag.
+  assert (Hk2 : (k <= 2)%nat).
+  { unfold sig_mpis in Ek. destruct (_ || _); [inversion Ek; lia|]. destruct (_ || _); [inversion Ek; lia|discriminate]. }
+  pose proof (length_flat_enc_mpi _ k Hm Hk) as Hml.
+  remember (sp_hashtag s) as T eqn:ET. destruct T as [|h1 [|h2 [|]]]; try discriminate.
+  remember (N_to_be 4 (sp_created s)) as C eqn:EC.
+  assert (HC : length C = 4%nat) by (subst C; apply length_N_to_be).
+  destruct C as [|c1 [|c2 [|c3 [|c4 [|]]]]]; try discriminate.
+  remember (N_to_be 8 (sp_issuer s)) as I eqn:EI.
+  assert (HI : length I = 8%nat) by (subst I; apply length_N_to_be).
+  destruct I as [|i1 [|i2 [|i3 [|i4 [|i5 [|i6 [|i7 [|i8 [|]]]]]]]]]; try discriminate.
+  assert (Hiss : be_to_N [i1; i2; i3; i4; i5; i6; i7; i8] = sp_issuer s).
+  { rewrite EI. apply be_to_N_to_be8. lia. }
+  unfold packet_read, encode_sig, sig_view.
+  destruct (sp_v3 s) eqn:Ev.
+  - assert (Eb : sig_body s = 3 :: 5 :: sp_sigtype s :: c1 :: c2 :: c3 :: c4 :: i1 :: i2 :: i3 :: i4 :: i5 :: i6 :: i7 :: i8
+                   :: sp_algo s :: sp_hash s :: h1 :: h2 :: flat_map enc_mpi (sp_mpis s)).
+    { unfold sig_body. rewrite Ev, <- EC, <- EI, <- ET. reflexivity. }
+    rewrite Eb. rewrite pkt_header_new by (rewrite !lenN_cons; lia).
+    cbn [bind]. change (2 =? 2) with true. cbv iota. change (3 <? 4) with true. cbv iota.
+    rewrite (parse_sig3_canon _ _ _ _ _ _ _ _ _ _ _ _ _ _ _ _ _ _ k) by assumption.
+    rewrite Hiss. reflexivity.
+  - assert (Eb : sig_body s = 4 :: sp_sigtype s :: sp_algo s :: sp_hash s :: 0 :: 6 :: 5 :: 2 :: c1 :: c2 :: c3 :: c4
+                   :: 0 :: 10 :: 9 :: 16 :: i1 :: i2 :: i3 :: i4 :: i5 :: i6 :: i7 :: i8 :: h1 :: h2
+                   :: flat_map enc_mpi (sp_mpis s)).
+    { unfold sig_body. rewrite Ev, <- EC, <- EI, <- ET. reflexivity. }
+    rewrite Eb. rewrite pkt_header_new by (rewrite !lenN_cons; lia).
+    cbn [bind]. change (2 =? 2) with true. cbv iota. change (4 <? 4) with false. cbv iota.
+    rewrite (parse_sig4_canon _ _ _ _ _ _ _ _ _ _ _ _ _ _ _ _ _ _ k) by assumption.
+    rewrite Hiss. reflexivity.
+Qed.
+
+(* ================================================================ rpmCheckIndex accepts the canonical layout *)
+
+Lemma strings_fit_one : forall s rest, nonul s = true -> strings_fit 1 (s ++ 0 :: rest) = true.
+Proof.
+  intros s rest H. cbn [strings_fit]. rewrite until_nul_app by exact H.
+  assert (E : Nat.eqb (length s) (length (s ++ 0 :: rest)) = false).
+  { apply Nat.eqb_neq. rewrite app_length. cbn [length]. lia. }
+  rewrite E. reflexivity.
+Qed.
+
+Lemma entry_fits_item : forall it pre post, good_item it ->
+  entry_fits (pre ++ it_data it ++ post) (it_type it) (lenN pre) (it_cnt it) = true.
+Proof.
+  intros it pre post [_ [(Ht & Hc & Hd)|(Ht & Hc & s & Hs & Hn)]]; unfold entry_fits; rewrite Ht, Hc.
+  - assert (H : (lenN (pre ++ it_data it ++ post) <? lenN pre) = false) by (rewrite !lenN_app; lia).
+    rewrite H. change ((7 =? 1) || (7 =? 2) || (7 =? 7)) with true. cbv iota.
+    rewrite !lenN_app. lia.
+  - assert (H : (lenN (pre ++ it_data it ++ post) <? lenN pre) = false) by (rewrite !lenN_app; lia).
+    rewrite H. change ((6 =? 1) || (6 =? 2) || (6 =? 7)) with false.
+    change (6 =? 3) with false. change (6 =? 4) with false. change (6 =? 5) with false.
+    change ((6 =? 6) || (6 =? 8) || (6 =? 9)) with true. cbv iota.
+    rewrite Hs.
+    assert (H1 : (1 <=? lenN (pre ++ (s ++ [0]) ++ post) - lenN pre) = true)
+      by (rewrite !lenN_app, lenN_cons; lia).
+    rewrite H1. change (N.to_nat 1) with 1%nat.
+    rewrite to_nat_lenN, skipn_app_exact by reflexivity. rewrite <- app_assoc. cbn [app].
+    apply strings_fit_one. exact Hn.
+Qed.
+
+Lemma index_fits_enc : forall its pre post rest, Forall good_item its ->
+  lenN pre + lenN (enc_store its) + lenN post < 4294967296 ->
+  index_fits (length its) (enc_index (lenN pre) its ++ rest) (pre ++ enc_store its ++ post) = true.
+Proof.
+  induction its as [|it r IH]; intros pre post rest Hg Hsz; [reflexivity|].
+  inversion Hg as [|? ? Hit Hr]; subst.
+  rewrite lenN_enc_store_cons in Hsz.
+  destruct (good_item_fields it 4294967295 Hit ltac:(lia) ltac:(lia)) as [Hty Hcnt].
+  pose proof Hit as [Htag _].
+  cbn [enc_index length index_fits].
+  rewrite <- !app_assoc.
+  destruct (be32_fields (N_to_be 4 (it_tag it)) (N_to_be 4 (it_type it)) (N_to_be 4 (lenN pre)) (N_to_be 4 (it_cnt it))
+              (enc_index (lenN pre + lenN (it_data it)) r ++ rest)
+              (length_N_to_be _ _) (length_N_to_be _ _) (length_N_to_be _ _) (length_N_to_be _ _))
+    as (E0 & E4 & E8 & E12 & E16).
+  rewrite E4, E8, E12, E16.
+  rewrite !be_to_N_to_be4 by lia.
+  unfold enc_store. cbn [flat_map]. fold (enc_store r). rewrite <- app_assoc.
+  rewrite entry_fits_item by exact Hit. cbn [andb].
+  rewrite <- lenN_app.
+  replace (pre ++ it_data it ++ enc_store r ++ post) with ((pre ++ it_data it) ++ enc_store r ++ post)
+    by (rewrite <- app_assoc; reflexivity).
+  apply IH; [exact Hr|]. rewrite lenN_app. lia.
+Qed.
+
+Definition header_intro (its : list item) : bytes :=
+  header_magic ++ [1; 0; 0; 0; 0] ++ N_to_be 4 (lenN its) ++ N_to_be 4 (lenN (enc_store its)).
+
+Lemma encode_header_intro : forall its rest,
+  encode_header its ++ rest = header_intro its ++ enc_index 0 its ++ enc_store its ++ rest.
+Proof. intros. unfold encode_header, header_intro. rewrite <- !app_assoc. reflexivity. Qed.
+
+Lemma length_header_intro : forall its, length (header_intro its) = 16%nat.
+Proof. intros. unfold header_intro. rewrite !app_length, !length_N_to_be. reflexivity. Qed.
+
+Lemma be32_at_app : forall o a b, (o + 4 <= length a)%nat -> be32_at o (a ++ b) = be32_at o a.
+Proof.
+  intros o a b H. unfold be32_at. rewrite skipn_app, firstn_app.
+  replace (4 - length (skipn o a))%nat with 0%nat by (rewrite skipn_length; lia).
+  replace (o - length a)%nat with 0%nat by lia. rewrite firstn_O, app_nil_r. reflexivity.
+Qed.
+
+Lemma header_intro_cnt : forall its, lenN its < 4294967296 -> be32_at 8 (header_intro its) = lenN its.
+Proof.
+  intros its H. unfold header_intro, be32_at. cbn [header_magic app skipn].
+  rewrite firstn_app_exact by (rewrite length_N_to_be; reflexivity). apply be_to_N_to_be4. exact H.
+Qed.
+
+Lemma header_intro_len : forall its, lenN (enc_store its) < 4294967296 ->
+  be32_at 12 (header_intro its) = lenN (enc_store its).
+Proof.
+  intros its H. unfold header_intro, be32_at. cbn [header_magic app].
+  remember (N_to_be 4 (lenN its)) as A eqn:EA.
+  assert (HA : length A = 4%nat) by (subst A; apply length_N_to_be).
+  destruct A as [|a1 [|a2 [|a3 [|a4 [|]]]]]; try discriminate. cbn [app skipn].
+  rewrite <- (app_nil_r (N_to_be 4 (lenN (enc_store its)))).
+  rewrite firstn_app_exact by (rewrite length_N_to_be; reflexivity). apply be_to_N_to_be4. exact H.
+Qed.
+
+Lemma check_header_encode : forall its rest, items_ok its ->
+  check_header (encode_header its ++ rest) =
+  Ok (Some (skipn (N.to_nat (pad_len (lenN (enc_store its)))) rest)).
+Proof.
+  intros its rest (Hne & Hg & Hsz & Hcnt). unfold max_header_size in Hsz.
+  rewrite encode_header_intro. unfold check_header.
+  pose proof (length_header_intro its) as Hli.
+  assert (H16 : (lenN (header_intro its ++ enc_index 0 its ++ enc_store its ++ rest) <? 16) = false).
+  { rewrite lenN_app. unfold lenN at 1. rewrite Hli. lia. }
+  rewrite H16.
+  rewrite !be32_at_app by (rewrite Hli; lia).
+  rewrite header_intro_cnt, header_intro_len by lia.
+  rewrite skipn_app_exact by (rewrite Hli; reflexivity).
+  assert (Hidx : lenN (enc_index 0 its) = 16 * lenN its) by (unfold lenN; rewrite length_enc_index; lia).
+  assert (H1 : (lenN (enc_index 0 its ++ enc_store its ++ rest) / 16 <? lenN its) = false).
+  { apply N.ltb_ge. apply N.div_le_lower_bound; [lia|]. rewrite lenN_app. lia. }
+  rewrite H1.
+  replace (N.to_nat (16 * lenN its)) with (length (enc_index 0 its)) by (rewrite length_enc_index; unfold lenN; lia).
+  rewrite firstn_app_exact, skipn_app_exact by reflexivity.
+  assert (H2 : (lenN (enc_store its ++ rest) <? lenN (enc_store its)) = false) by (rewrite lenN_app; lia).
+  rewrite H2. rewrite !to_nat_lenN, firstn_app_exact, skipn_app_exact by reflexivity.
+  pose proof (index_fits_enc its [] [] [] Hg) as Hf. cbn [app] in Hf. rewrite !app_nil_r in Hf.
+  change (lenN (@nil N)) with 0 in Hf. rewrite Hf by lia. cbn [negb].
+  unfold pad_len. destruct (lenN (enc_store its) mod 8 =? 0) eqn:E.
+  - apply N.eqb_eq in E. rewrite E. reflexivity.
+  - apply N.eqb_neq in E. pose proof (N.mod_lt (lenN (enc_store its)) 8 ltac:(lia)).
+    rewrite (N.mod_small (8 - _) 8) by lia. reflexivity.
+Qed.
+
+Lemma check_index_encode : forall p, pkg_ok p = true -> check_index (encode p) = Ok tt.
+Proof.
+  intros p Hok. apply pkg_ok_facts in Hok as F.
+  unfold check_index, encode. cbv zeta.
+  rewrite skipn_app_exact by (rewrite length_encode_lead; reflexivity).
+  rewrite check_header_encode by (apply sig_items_ok; exact F). cbn [bind].
+  rewrite skipn_app_exact by (rewrite repeat_length; reflexivity).
+  rewrite check_header_encode by (apply main_items_ok; exact F). reflexivity.
+Qed.
+
+(* ================================================================ C19_faithful *)
+
+Definition str_of (o : option value) : bytes :=
+  match o with Some (VStrings (s :: _)) => s | _ => [] end.
+Definition bytes_of (o : option value) : bytes :=
+  match o with Some (VBytes b) => b | _ => [] end.
+Definition find_tag (t : N) (its : list item) : option item := find (fun it => it_tag it =? t) its.
+
+Lemma index_by_tag_view : forall t its off,
+  option_map e_val (index_by_tag t (entries_view off its)) = option_map item_value (find_tag t its).
+Proof.
+  unfold find_tag. induction its as [|it r IH]; intros off; [reflexivity|].
+  cbn [entries_view index_by_tag find e_tag]. destruct (it_tag it =? t); [reflexivity|apply IH].
+Qed.
+
+Lemma string_by_tag_view : forall t its off,
+  string_by_tag true t (entries_view off its) = Ok (str_of (option_map item_value (find_tag t its))).
+Proof.
+  intros. rewrite <- (index_by_tag_view t its off). unfold string_by_tag.
+  destruct (index_by_tag t (entries_view off its)) as [e|]; [|reflexivity].
+  cbn [option_map str_of]. destruct (e_val e) as [|b|ty raw|[|s l]]; reflexivity.
+Qed.
+
+Lemma bytes_by_tag_view : forall t its off,
+  bytes_by_tag true t (entries_view off its) = Ok (bytes_of (option_map item_value (find_tag t its))).
+Proof.
+  intros. rewrite <- (index_by_tag_view t its off). unfold bytes_by_tag.
+  destruct (index_by_tag t (entries_view off its)) as [e|]; [|reflexivity].
+  cbn [option_map bytes_of]. destruct (e_val e); reflexivity.
+Qed.
+
+Lemma until_nul_str : forall s, nonul s = true -> until_nul (s ++ [0]) = s.
+Proof. intros. apply until_nul_app. exact H. Qed.
+
+Ltac main_lookup F :=
+  intros; rewrite string_by_tag_view; unfold find_tag, main_items, with_region;
+  destruct (k_rpmversion _) eqn:?; cbn; try reflexivity; f_equal;
+  apply until_nul_str; first [apply (pf_name _ F) | apply (pf_version _ F) | apply (pf_release _ F) | apply (pf_arch _ F)
+                             | eapply pf_rpmversion; eauto].
+
+Lemma main_name : forall p off, pkg_facts p -> string_by_tag true 1000 (entries_view off (main_items p)) = Ok (k_name p).
+Proof. intros p off F. main_lookup F. Qed.
+Lemma main_version : forall p off, pkg_facts p -> string_by_tag true 1001 (entries_view off (main_items p)) = Ok (k_version p).
+Proof. intros p off F. main_lookup F. Qed.
+Lemma main_release : forall p off, pkg_facts p -> string_by_tag true 1002 (entries_view off (main_items p)) = Ok (k_release p).
+Proof. intros p off F. main_lookup F. Qed.
+Lemma main_arch : forall p off, pkg_facts p -> string_by_tag true 1022 (entries_view off (main_items p)) = Ok (k_arch p).
+Proof. intros p off F. main_lookup F. Qed.
+Lemma main_rpmversion : forall p off, pkg_facts p ->
+  string_by_tag true 1064 (entries_view off (main_items p)) = Ok (stored (k_rpmversion p)).
+Proof. intros p off F. main_lookup F. Qed.
+
+Ltac sig_cases p :=
+  unfold find_tag, sig_items, with_region;
+  destruct (k_dsa p), (k_rsa p), (k_sha1 p), (k_sha256 p), (k_pgp p), (k_md5 p), (k_gpg p); reflexivity.
+
+Lemma find_sig_md5 : forall p, option_map item_value (find_tag 1004 (sig_items p)) = option_map VBytes (k_md5 p).
+Proof. intros p. sig_cases p. Qed.
+Lemma find_sig_sha1 : forall p,
+  option_map item_value (find_tag 269 (sig_items p)) = option_map (fun s => VStrings [until_nul (s ++ [0])]) (k_sha1 p).
+Proof. intros p. sig_cases p. Qed.
+Lemma find_sig_sha256 : forall p,
+  option_map item_value (find_tag 273 (sig_items p)) = option_map (fun s => VStrings [until_nul (s ++ [0])]) (k_sha256 p).
+Proof. intros p. sig_cases p. Qed.
+Lemma find_sig_dsa : forall p,
+  option_map item_value (find_tag 267 (sig_items p)) = option_map (fun s => VBytes (encode_sig s)) (k_dsa p).
+Proof. intros p. sig_cases p. Qed.
+Lemma find_sig_rsa : forall p,
+  option_map item_value (find_tag 268 (sig_items p)) = option_map (fun s => VBytes (encode_sig s)) (k_rsa p).
+Proof. intros p. sig_cases p. Qed.
+Lemma find_sig_gpg : forall p,
+  option_map item_value (find_tag 1005 (sig_items p)) = option_map (fun s => VBytes (encode_sig s)) (k_gpg p).
+Proof. intros p. sig_cases p. Qed.
+Lemma find_sig_pgp : forall p,
+  option_map item_value (find_tag 1002 (sig_items p)) = option_map (fun s => VBytes (encode_sig s)) (k_pgp p).
+Proof. intros p. sig_cases p. Qed.
+
+Lemma sig_md5 : forall p off, bytes_by_tag true 1004 (entries_view off (sig_items p)) = Ok (stored (k_md5 p)).
+Proof. intros. rewrite bytes_by_tag_view, find_sig_md5. destruct (k_md5 p); reflexivity. Qed.
+
+Lemma sig_sha1 : forall p off, pkg_facts p ->
+  string_by_tag true 269 (entries_view off (sig_items p)) = Ok (stored (k_sha1 p)).
+Proof.
+  intros p off F. rewrite string_by_tag_view, find_sig_sha1. destruct (k_sha1 p) eqn:E; [|reflexivity].
+  cbn. f_equal. apply until_nul_str. eapply pf_sha1; eauto.
+Qed.
+
+Lemma sig_sha256 : forall p off, pkg_facts p ->
+  string_by_tag true 273 (entries_view off (sig_items p)) = Ok (stored (k_sha256 p)).
+Proof.
+  intros p off F. rewrite string_by_tag_view, find_sig_sha256. destruct (k_sha256 p) eqn:E; [|reflexivity].
+  cbn. f_equal. apply until_nul_str. eapply pf_sha256; eauto.
+Qed.
+
+(* algorithm and hash as the property names them *)
+Lemma algo_name_now : forall a h,
+  (sig4_algo_ok a = true \/ sig3_algo_ok a = true) -> hash_known h = true ->
+  algo_name cfg_now a h = pk_name a ++ bs "/" ++ hash_label h.
+Proof.
+  intros a h Ha Hh. unfold algo_name, pk_name, hash_label, cfg_now. cbn [cfg_echash].
+  unfold hash_known in Hh. destruct (hash_name h) as [n|]; [|discriminate].
+  destruct (a =? 17) eqn:E17; [reflexivity|]. destruct (a =? 19) eqn:E19; [reflexivity|].
+  destruct (a =? 22) eqn:E22; [reflexivity|].
+  assert (H13 : ((a =? 1) || (a =? 3)) = true).
+  { unfold sig4_algo_ok, sig3_algo_ok in Ha. rewrite ?E17, ?E19, ?E22 in Ha.
+    destruct (a =? 1), (a =? 3); cbn in *; try reflexivity; destruct Ha; discriminate. }
+  rewrite H13. reflexivity.
+Qed.
+
+Lemma sig_ok_algo : forall s, sig_ok s = true ->
+  (sig4_algo_ok (sp_algo s) = true \/ sig3_algo_ok (sp_algo s) = true) /\ hash_known (sp_hash s) = true.
+Proof.
+  intros s H. unfold sig_ok in H.
+  apply andb_prop in H as [H _]. apply andb_prop in H as [H _]. apply andb_prop in H as [H _].
+  apply andb_prop in H as [H _]. apply andb_prop in H as [H _]. apply andb_prop in H as [Ha Hh].
+  split; [|exact Hh]. destruct (sp_v3 s); auto.
+Qed.
+
+Lemma sig_attrs_encode : forall other s, sig_ok s = true ->
+  sig_attrs cfg_now other (encode_sig s) = Ok (sig_report s).
+Proof.
+  intros other s H. unfold sig_attrs. rewrite packet_read_encode by exact H.
+  destruct (sig_ok_algo s H) as [Ha Hh].
+  unfold sig_view, sig_report. destruct (sp_v3 s); rewrite algo_name_now by assumption; reflexivity.
+Qed.
+
+Lemma sig_child_encode : forall other desc tag o,
+  (forall s, o = Some s -> sig_ok s = true) ->
+  forall idx, bytes_by_tag true tag idx = Ok (bytes_of (option_map (fun s => VBytes (encode_sig s)) o)) ->
+  sig_child cfg_now other desc idx tag = Ok (opt_list (fun s => Info desc (sig_report s) []) o).
+Proof.
+  intros other desc tag o Hok idx Hb. unfold sig_child, cfg_now. cbn [cfg_checked]. rewrite Hb. cbn [bind].
+  destruct o as [s|]; cbn [option_map bytes_of opt_list]; [|reflexivity].
+  destruct (encode_sig s) eqn:E; [exfalso; eapply encode_sig_nonempty; eauto|]. rewrite <- E.
+  fold cfg_now. rewrite sig_attrs_encode by (apply Hok; reflexivity). reflexivity.
+Qed.
+
+(* RPMFile on the canonical layout of a well-formed package reports exactly what is stored *)
+Lemma describe_encode : forall other p, pkg_ok p = true -> describe other (encode p) = Ok (report p).
+Proof.
+  intros other p Hok. pose proof (pkg_ok_facts p Hok) as F.
+  unfold describe, describe_gen. unfold cfg_now at 1 2 3 4 5 6 7 8 9 10 11.
+  cbn [cfg_validate cfg_checked cfg_noregion].
+  rewrite check_index_encode by exact Hok. cbn [bind].
+  rewrite parse_encode by exact Hok. cbn [bind]. cbv zeta.
+  cbn [view p_main p_sig header_view h_entries].
+  rewrite main_rpmversion, main_name, main_version, main_release, main_arch by exact F. cbn [bind].
+  rewrite Bool.orb_true_r. cbn [negb].
+  rewrite sig_md5, sig_sha1, sig_sha256 by exact F. cbn [bind].
+  rewrite (sig_child_encode other _ 267 (k_dsa p) (pf_dsa p F)) by (rewrite bytes_by_tag_view, find_sig_dsa; reflexivity).
+  rewrite (sig_child_encode other _ 268 (k_rsa p) (pf_rsa p F)) by (rewrite bytes_by_tag_view, find_sig_rsa; reflexivity).
+  rewrite (sig_child_encode other _ 1005 (k_gpg p) (pf_gpg p F)) by (rewrite bytes_by_tag_view, find_sig_gpg; reflexivity).
+  rewrite (sig_child_encode other _ 1002 (k_pgp p) (pf_pgp p F)) by (rewrite bytes_by_tag_view, find_sig_pgp; reflexivity).
+  cbn [bind]. unfold report. fold (report_children p). rewrite <- !app_assoc.
+  destruct (stored (k_rpmversion p)); reflexivity.
+Qed.
+
+(* ================================================================ C19_unsigned *)
+
+Definition unsigned_attr : bytes * bytes := (bs "Signature", bs "none").
+
+Lemma not_unsigned_opt_attr : forall name v, name <> bs "Signature" -> ~ In unsigned_attr (opt_attr name v).
+Proof.
+  intros name v Hn. unfold opt_attr. destruct v; [intros []|].
+  intros [E|[]]. unfold unsigned_attr in E. injection E as E1 E2. exact (Hn E1).
+Qed.
+
+(* for EVERY input: "Signature: none" is reported exactly when no signature entry is *)
+Lemma unsigned_iff_no_children : forall other data i,
+  describe other data = Ok i ->
+  (In unsigned_attr (i_attrs i) <-> i_children i = []).
+Proof.
+  intros other data i H. unfold describe, describe_gen, cfg_now in H.
+  cbn [cfg_validate cfg_checked cfg_noregion] in H.
+  destruct (check_index data) as [[]| |]; cbn [bind] in H; try discriminate.
+  destruct (read_package_file data) as [p| |]; cbn [bind] in H; try discriminate.
+  cbv zeta in H.
+  destruct (string_by_tag true 1064 _) as [rv| |]; cbn [bind] in H; try discriminate.
+  destruct (string_by_tag true 1000 _) as [s1| |]; cbn [bind] in H; try discriminate.
+  destruct (string_by_tag true 1001 _) as [s2| |]; cbn [bind] in H; try discriminate.
+  destruct (string_by_tag true 1002 _) as [s3| |]; cbn [bind] in H; try discriminate.
+  destruct (string_by_tag true 1022 _) as [s4| |]; cbn [bind] in H; try discriminate.
+  rewrite Bool.orb_true_r in H. cbn [negb] in H.
+  destruct (bytes_by_tag true 1004 _) as [md5| |]; cbn [bind] in H; try discriminate.
+  destruct (string_by_tag true 269 _) as [sha1| |]; cbn [bind] in H; try discriminate.
+  destruct (string_by_tag true 273 _) as [sha256| |]; cbn [bind] in H; try discriminate.
+  destruct (sig_child _ _ _ _ 267) as [c1| |]; cbn [bind] in H; try discriminate.
+  destruct (sig_child _ _ _ _ 268) as [c2| |]; cbn [bind] in H; try discriminate.
+  destruct (sig_child _ _ _ _ 1005) as [c3| |]; cbn [bind] in H; try discriminate.
+  destruct (sig_child _ _ _ _ 1002) as [c4| |]; cbn [bind] in H; try discriminate.
+  inversion H; subst i; clear H. cbn [i_attrs i_children].
+  set (children := c1 ++ c2 ++ c3 ++ c4).
+  split.
+  - intros Hin. destruct children as [|c cs]; [reflexivity|]. exfalso.
+    rewrite app_nil_r in Hin.
+    destruct Hin as [E|[E|[E|[E|Hin]]]]; try (cbv in E; discriminate E).
+    apply in_app_or in Hin as [Hin|Hin]; [eapply not_unsigned_opt_attr; [|exact Hin]; cbv; discriminate|].
+    apply in_app_or in Hin as [Hin|Hin]; (eapply not_unsigned_opt_attr; [|exact Hin]; cbv; discriminate).
+  - intros E. rewrite E. do 4 right. apply in_or_app. right. left. reflexivity.
+Qed.
+
+Lemma report_children_nil : forall p,
+  report_children p = [] <-> (k_dsa p = None /\ k_rsa p = None /\ k_gpg p = None /\ k_pgp p = None).
+Proof.
+  intros p. unfold report_children.
+  destruct (k_dsa p), (k_rsa p), (k_gpg p), (k_pgp p); cbn; split; intros H;
+    try discriminate; try (destruct H as (H1 & H2 & H3 & H4); discriminate); auto.
+Qed.
+
+(* well-formed packages: reported as unsigned iff the four signature tags are absent *)
+Lemma unsigned_wellformed : forall other p, pkg_ok p = true ->
+  exists i, describe other (encode p) = Ok i /\
+    (In unsigned_attr (i_attrs i) <-> (k_dsa p = None /\ k_rsa p = None /\ k_gpg p = None /\ k_pgp p = None)) /\
+    (i_children i = [] <-> (k_dsa p = None /\ k_rsa p = None /\ k_gpg p = None /\ k_pgp p = None)).
+Proof.
+  intros other p Hok. exists (report p). split; [apply describe_encode; exact Hok|].
+  pose proof (unsigned_iff_no_children other (encode p) (report p) (describe_encode other p Hok)) as Hu.
+  split.
+  - rewrite Hu. cbn [report i_children]. apply report_children_nil.
+  - cbn [report i_children]. apply report_children_nil.
+Qed.
+
+(* ================================================================ the fuel of the signature parser is never exhausted *)
+
+Definition nf {A} (r : result A) : Prop := r <> Err "fuel".
+
+Lemma nf_bind : forall A B (r : result A) (f : A -> result B),
+  nf r -> (forall a, r = Ok a -> nf (f a)) -> nf (bind r f).
+Proof.
+  intros A B [a|e|s] f Hr Hf; cbn [bind]; [now apply Hf| |discriminate].
+  intros E. apply Hr. inversion E. reflexivity.
+Qed.
+
+Ltac nf_leaf := first [ discriminate | (intros Efuel; inversion Efuel; fail) ].
+
+Ltac nf_step :=
+  match goal with
+  | |- nf (Ok _) => unfold nf; discriminate
+  | |- nf (Panic _) => unfold nf; discriminate
+  | |- nf (Err _) => unfold nf; discriminate
+  | |- nf (bind _ _) => apply nf_bind; [|intros]
+  | |- nf (let '(_, _) := ?p in _) => destruct p
+  | |- nf (if ?b then _ else _) => destruct b eqn:?
+  | |- nf (match ?x with _ => _ end) => destruct x eqn:?
+  end.
+
+Lemma nf_need : forall n l, nf (need n l).
+Proof. intros. unfold need. repeat nf_step. Qed.
+
+Lemma need_ok : forall n l a b, need n l = Ok (a, b) -> a = firstn n l /\ b = skipn n l.
+Proof. intros n l a b H. unfold need in H. destruct (Nat.ltb (length l) n); [discriminate|]. inversion H. auto. Qed.
+
+Lemma nf_read_mpi : forall l, nf (read_mpi l).
+Proof. intros. unfold read_mpi. repeat (first [apply nf_need | nf_step]). Qed.
+
+Lemma nf_read_mpis : forall k l, nf (read_mpis k l).
+Proof.
+  induction k; intros; cbn [read_mpis]; [unfold nf; discriminate|].
+  apply nf_bind; [apply nf_read_mpi|intros; apply IHk].
+Qed.
+
+Lemma nf_subpacket_length : forall sp, nf (subpacket_length sp).
+Proof. intros. unfold subpacket_length. repeat nf_step. Qed.
+
+Lemma subpacket_length_shorter : forall sp len body,
+  subpacket_length sp = Ok (len, body) -> (length body < length sp)%nat.
+Proof.
+  intros sp len body H. unfold subpacket_length in H.
+  destruct sp as [|b0 r]; [discriminate|].
+  destruct (b0 <? 192); [inversion H; subst; cbn; lia|].
+  destruct (b0 <? 255).
+  - destruct r as [|b1 r']; [discriminate|]. inversion H; subst. cbn. lia.
+  - destruct r as [|b1 [|b2 [|b3 [|b4 r']]]]; try discriminate. inversion H; subst. cbn. lia.
+Qed.
+
+Lemma sig4_fuel : forall fuel,
+  (forall c, (length c <= fuel)%nat -> nf (parse_sig4 fuel c)) /\
+  (forall st sp h, (length sp <= fuel)%nat -> nf (parse_subpackets fuel st sp h)).
+Proof.
+  induction fuel as [|f [IH4 IHs]].
+  - split.
+    + intros c Hc. destruct c; [|cbn in Hc; lia]. cbn. unfold nf. discriminate.
+    + intros st sp h Hc. destruct sp; [|cbn in Hc; lia]. cbn. unfold nf. discriminate.
+  - split.
+    + intros c Hc.
+      destruct c as [|v [|t [|a [|h [|l1 [|l2 rest]]]]]];
+        try (cbn [parse_sig4]; repeat nf_step; fail).
+      rewrite parse_sig4_S. cbn [length] in Hc.
+      destruct (negb (v =? 4)); [unfold nf; discriminate|].
+      destruct (negb (sig4_algo_ok a)); [unfold nf; discriminate|].
+      destruct (negb (hash_known h)); [unfold nf; discriminate|].
+      apply nf_bind; [apply nf_need|]. intros [hashed r1] Hn1. apply need_ok in Hn1 as [Hh Hr1].
+      assert (Lh : (length hashed <= f)%nat) by (subst hashed; rewrite firstn_length; lia).
+      assert (Lr1 : (length r1 <= f)%nat) by (subst r1; rewrite skipn_length; lia).
+      apply nf_bind; [apply IHs; exact Lh|]. intros st1 _.
+      destruct (negb (ss_created st1)); [unfold nf; discriminate|].
+      apply nf_bind; [apply nf_need|]. intros [ul r2] Hn2. apply need_ok in Hn2 as [_ Hr2].
+      assert (Lr2 : (length r2 <= f)%nat) by (subst r2; rewrite skipn_length; lia).
+      apply nf_bind; [apply nf_need|]. intros [unhashed r3] Hn3. apply need_ok in Hn3 as [Hu _].
+      assert (Lu : (length unhashed <= f)%nat) by (subst unhashed; rewrite firstn_length; lia).
+      apply nf_bind; [apply IHs; exact Lu|]. intros st2 _.
+      apply nf_bind; [apply nf_need|]. intros [x r4] _.
+      destruct (sig_mpis a); [|unfold nf; discriminate].
+      apply nf_bind; [apply nf_read_mpis|]. intros. unfold nf. discriminate.
+    + intros st sp h Hc. destruct sp as [|x sp']; [cbn; unfold nf; discriminate|].
+      cbn [parse_subpackets].
+      apply nf_bind; [apply nf_subpacket_length|]. intros [len body] Hsl.
+      apply subpacket_length_shorter in Hsl. cbn [length] in Hsl, Hc.
+      destruct (lenN body <? len); [unfold nf; discriminate|].
+      assert (Lrest : (length (skipn (N.to_nat len) body) <= f)%nat) by (rewrite skipn_length; lia).
+      destruct (firstn (N.to_nat len) body) as [|t0 payload] eqn:Ef; [unfold nf; discriminate|].
+      assert (Lpay : (length payload <= f)%nat).
+      { apply (f_equal (@length N)) in Ef. rewrite firstn_length in Ef. cbn [length] in Ef. lia. }
+      repeat (first [apply IHs; exact Lrest | apply IH4; exact Lpay | nf_step]).
+Qed.
+
+Lemma parse_sig4_fuel : forall c, parse_sig4 (length c) c <> Err "fuel".
+Proof. intros. apply (proj1 (sig4_fuel (length c))). lia. Qed.
+
+(* ================================================================ witnesses: non-vacuity and the pre-repair code *)
+
+Definition ex_sig : sigpkt :=
+  mksigpkt false 1 8 81985529216486895 (* 0x0123456789ABCDEF *) 1700000000 0 [18; 52] [[1; 2; 3]].
+Definition ex_sig3 : sigpkt := mksigpkt true 17 2 207 1 0 [0; 0] [[1]; [2]].
+
+Definition ex_pkg : pkg :=
+  mkpkg 3 0 (bs "dummy") (bs "0.0.1") (bs "1") (bs "noarch") (Some (bs "4.14.3"))
+        (Some [1; 2; 3; 4; 5; 6; 7; 8; 9; 10; 11; 12; 13; 14; 15; 16])
+        (Some (bs "0123456789abcdef0123456789abcdef01234567")) None
+        None (Some ex_sig) (Some ex_sig3) None [0; 0; 0; 0; 0; 0; 0; 0].
+
+Fixpoint lookup_attr_p (name : bytes) (attrs : list (bytes * bytes)) : option bytes :=
+  match attrs with
+  | [] => None
+  | (n, v) :: r => if bytes_eqb n name then Some v else lookup_attr_p name r
+  end.
+
+Definition no_other : bytes -> result unit := fun _ => Err "not a signature packet".
+
+Lemma ex_pkg_ok : pkg_ok ex_pkg = true.
+Proof. vm_compute. reflexivity. Qed.
+
+Lemma ex_pkg_report :
+  describe no_other (encode ex_pkg) =
+  Ok (Info (bs "RPM (version 4.14.3)")
+        [(bs "Name", bs "dummy"); (bs "Version", bs "0.0.1"); (bs "Release", bs "1"); (bs "Architecture", bs "noarch");
+         (bs "MD5", bs "0102030405060708090a0b0c0d0e0f10");
+         (bs "SHA-1", bs "0123456789abcdef0123456789abcdef01234567")]
+        [Info (bs "Signature") [(bs "Algorithm", bs "RSA/SHA-256"); (bs "Key id", bs "0123456789ABCDEF")] [];
+         Info (bs "Legacy signature (RPM v3)") [(bs "Algorithm", bs "DSA/SHA-1"); (bs "Key id", bs "00000000000000CF")] []]).
+Proof. vm_compute. reflexivity. Qed.
+
+(* a package like ex_pkg whose main header is replaced *)
+Definition with_main (p : pkg) (its : list item) : bytes :=
+  encode_lead p ++ encode_header (sig_items p)
+  ++ repeat 0 (N.to_nat (pad_len (lenN (enc_store (sig_items p)))))
+  ++ encode_header its ++ k_payload p.
+
+(* F24: NAME carries type INT32 *)
+Definition w_f24 : bytes :=
+  with_main ex_pkg (with_region 63 [mkitem 1000 4 1 [0; 0; 0; 7]; str_item 1001 (bs "0.0.1"); str_item 1002 (bs "1"); str_item 1022 (bs "noarch")]).
+(* F24: NAME is a string entry with count 0 *)
+Definition w_f24b : bytes :=
+  with_main ex_pkg (with_region 63 [mkitem 1000 6 0 (bs "dummy" ++ [0]); str_item 1001 (bs "0.0.1"); str_item 1002 (bs "1"); str_item 1022 (bs "noarch")]).
+(* F36: a string array of count 2 whose first string runs to the end of the store *)
+Definition w_f36 : bytes :=
+  with_main ex_pkg (with_region 63 [str_item 1000 (bs "dummy"); str_item 1001 (bs "0.0.1"); str_item 1002 (bs "1"); str_item 1022 (bs "noarch");
+                                    mkitem 1117 8 2 [97; 98]]).
+(* F37: the signature header without its region entry *)
+Definition w_f37 : bytes :=
+  let its := tl (sig_items ex_pkg) in
+  encode_lead ex_pkg ++ encode_header its ++ repeat 0 (N.to_nat (pad_len (lenN (enc_store its))))
+  ++ encode_header (main_items ex_pkg) ++ k_payload ex_pkg.
+
+Lemma f24_refuted : is_panic (describe_gen cfg_original no_other w_f24) = true
+                 /\ is_panic (describe_gen cfg_original no_other w_f24b) = true.
+Proof. split; vm_compute; reflexivity. Qed.
+
+Lemma f24_now : exists i j, describe no_other w_f24 = Ok i /\ describe no_other w_f24b = Ok j
+  /\ lookup_attr_p (bs "Name") (i_attrs i) = Some [] /\ lookup_attr_p (bs "Version") (i_attrs i) = Some (bs "0.0.1").
+Proof. vm_compute. eexists. eexists. repeat split. Qed.
+
+Lemma f36_refuted : is_panic (describe_gen (mkcfg true true true false true) no_other w_f36) = true.
+Proof. vm_compute. reflexivity. Qed.
+
+Lemma f36_now : exists e, describe no_other w_f36 = Err e.
+Proof. vm_compute. eexists. reflexivity. Qed.
+
+Lemma f32_refuted : algo_name cfg_original 19 8 = bs "ECDSA" /\ algo_name cfg_original 22 10 = bs "EdDSA"
+                 /\ algo_name cfg_now 19 8 = bs "ECDSA/SHA-256" /\ algo_name cfg_now 22 10 = bs "EdDSA/SHA-512".
+Proof. vm_compute. repeat split. Qed.
+
+Lemma f37_refuted : exists i, describe_gen (mkcfg true true true true false) no_other w_f37 = Ok i
+  /\ i_children i = [] /\ ~ In unsigned_attr (i_attrs i).
+Proof.
+  vm_compute. eexists. split; [reflexivity|]. split; [reflexivity|].
+  intros [E|[E|[E|[E|[]]]]]; discriminate E.
+Qed.
+
+Lemma f37_now : exists i, describe no_other w_f37 = Ok i /\ length (i_children i) = 2%nat.
+Proof. vm_compute. eexists. split; reflexivity. Qed.
